@@ -126,7 +126,10 @@ func c05GenOptSeqs(r *verifh.Rng) []verifh.Section {
 					pan = r.Pick(0, 0, 0, 10)
 				}
 				api := apis[r.Intn(len(apis))]
-				if lib == "mr" && r.Chance(1, 5) {
+				if j == 0 {
+					api = apis[i%len(apis)] // every entry point appears in every run
+				}
+				if lib == "mr" && (r.Chance(1, 5) || (j == 1 && i < 2)) {
 					// mr.Finish / FinishVoid(fns...) take no options: they ask for WithWorkers(len(fns)) themselves, so
 					// the cap of the run is the number of functions — written as the option the driver derives it from
 					api = r.PickS("finish", "finishvoid")
